@@ -448,7 +448,7 @@ func genRdata(r *Rng, pl *specPlan, nameMode int, plainStr bool) (rd []byte, fie
 			kinds[s.Field] = "uint"
 		case "UnpackDomainName":
 			ls := nameFor(r, nameMode)
-			rd = append(rd, wireOf(ls)...)
+			rd = append(rd, encName(ls)...)
 			fields[s.Field] = ls
 			kinds[s.Field] = "name"
 			if nameMode != 0 {
@@ -458,7 +458,7 @@ func genRdata(r *Rng, pl *specPlan, nameMode int, plainStr bool) (rd []byte, fie
 			var all [][][]byte
 			for i := 0; i < r.Intn(3); i++ {
 				ls := nameFor(r, nameMode)
-				rd = append(rd, wireOf(ls)...)
+				rd = append(rd, encName(ls)...)
 				all = append(all, ls)
 			}
 			fields[s.Field] = all
@@ -560,7 +560,7 @@ func genRdata(r *Rng, pl *specPlan, nameMode int, plainStr bool) (rd []byte, fie
 				kinds["GatewayAddr"] = "ip"
 			case 3:
 				ls := nameFor(r, nameMode)
-				rd = append(rd, wireOf(ls)...)
+				rd = append(rd, encName(ls)...)
 				fields["GatewayHost"] = ls
 				kinds["GatewayHost"] = "name"
 			}
@@ -582,6 +582,17 @@ func (t *specTable) wireTypes() []uint16 {
 		out = append(out, c)
 	}
 	return out
+}
+
+// nameEnc, when set, replaces the plain wire form of the names inside generated RDATA (directed streams: names
+// written with compression pointers in every field of every type)
+var nameEnc func(ls [][]byte) []byte
+
+func encName(ls [][]byte) []byte {
+	if nameEnc != nil {
+		return nameEnc(ls)
+	}
+	return wireOf(ls)
 }
 
 func genRR(r *Rng, typ uint16, nameMode int, plainStr bool) *GenRR {
